@@ -356,9 +356,9 @@ func newC02Env(cs *c02Case) (*c02Env, error) {
 
 func (e *c02Env) close() { e.cache.Stop() }
 
-// idOfSerial: harness-made certificates have serials 101.. in creation order, the issuer
+// c02IDOfSerial: harness-made certificates have serials 101.. in creation order, the issuer
 // double continues the same sequence.
-func idOfSerial(s string) int {
+func c02IDOfSerial(s string) int {
 	var v int
 	fmt.Sscan(s, &v)
 	return v - 100
@@ -373,7 +373,7 @@ func c02LeafSerial(chainPEM []byte) (int, error) {
 	if err != nil {
 		return 0, err
 	}
-	return idOfSerial(c.SerialNumber.String()), nil
+	return c02IDOfSerial(c.SerialNumber.String()), nil
 }
 
 // waitQuiet waits until no goroutine spawned by the handshake code is alive.
@@ -510,7 +510,7 @@ func (e *c02Env) cacheView() []int {
 	certs, _ := certmagic.VerifCacheSnapshot(e.cfg)
 	var ids []int
 	for _, c := range certs {
-		ids = append(ids, idOfSerial(c.Serial))
+		ids = append(ids, c02IDOfSerial(c.Serial))
 	}
 	sort.Ints(ids)
 	return ids
@@ -530,7 +530,7 @@ func (e *c02Env) handshake(op c02Op) (*c02HsObs, error) {
 		}
 	}
 	if c, matched, _ := certmagic.VerifCacheLookup(e.cfg, hello); matched {
-		obs.Hit = idOfSerial(c.Serial)
+		obs.Hit = c02IDOfSerial(c.Serial)
 	}
 	e.mu.Lock()
 	e.issueOK = op.IssueOK
@@ -589,7 +589,7 @@ func (e *c02Env) handshake(op c02Op) (*c02HsObs, error) {
 	case r.empty:
 		obs.Res = "empty"
 	default:
-		obs.Res, obs.ResID = "cert", idOfSerial(r.serial)
+		obs.Res, obs.ResID = "cert", c02IDOfSerial(r.serial)
 	}
 	obs.CacheIDs = e.cacheView()
 	var err error
